@@ -36,7 +36,11 @@ func drawC19Long(rt *rapid.T) *Case {
 	if gen.Uniform(rt, "twin", 3) == 0 {
 		c.Twin = gen.TwinText(rt, r.Text)
 	}
-	c.Ints = []int{gen.Uniform(rt, "remember", 40), []int{70, 300, 1100, 2100, 4200}[gen.Uniform(rt, "age", 5)]}
+	c.Ints = []int{gen.Uniform(rt, "remember", 40), []int{70, 300, 1100, 2100, 4200}[gen.Uniform(rt, "age", 5)], 0}
+	if gen.Uniform(rt, "big", 25) == 0 {
+		// somebody evaluates a path with thousands of results right before
+		c.Ints[2] = []int{1100, 4500, 9000, 70000}[gen.Uniform(rt, "bigsize", 4)]
+	}
 	return c
 }
 
@@ -111,6 +115,14 @@ func checkC19Long(c *Case, st *Stats) string {
 		_, _, _ = bareCall(c.Twin, api.retrieve, c.Document())
 		st.Class("preceded-by-twin-path")
 	}
+	if len(c.Ints) >= 3 && c.Ints[2] > 0 {
+		big := bigArray(c.Ints[2] / 10)
+		if res, err := jsonpath.Retrieve("$[*,*,*,*,*,*,*,*,*,*]", big); err != nil || len(res) != len(big)*10 {
+			return fmt.Sprintf("$[*,*,*,*,*,*,*,*,*,*] on an array of %d numbers returned %d values, %v", len(big), len(res), err)
+		}
+		longNote("$[*,*,*,*,*,*,*,*,*,*]", true)
+		st.Class("preceded-by-a-big-result")
+	}
 	idx := longNote(c.Path, api.retrieve)
 	got, rerr, perr := bareCall(c.Path, api.retrieve, c.Document())
 	st.Eval(1)
@@ -146,7 +158,7 @@ func checkC19Long(c *Case, st *Stats) string {
 		return ""
 	}
 	// remember some cases
-	if len(c.Ints) == 2 && c.Ints[0] == 0 && len(longMemory) < 64 {
+	if len(c.Ints) >= 2 && c.Ints[0] == 0 && len(longMemory) < 64 {
 		longMemory = append(longMemory, &longEntry{c: c, logIndex: idx, distinct: len(longDistinct), age: c.Ints[1]})
 	}
 	// revisit the remembered cases that are old enough
